@@ -77,3 +77,10 @@ Print Assumptions tsv_roundtrip.
 Theorem tsv_field_wellformed : forall s c, In c (tsv_str s) -> bz c <> 9 /\ bz c <> 10 /\ bz c <> 13 /\ bz c <> 0.
 Proof. exact TabularLaws.tsv_str_no_sep. Qed.
 Print Assumptions tsv_field_wellformed.
+
+(** YAML: integers of any size are written in decimal and read back as the same integer (the most negative machine
+    integer as the equal big integer) *)
+Theorem yaml_integer_roundtrip : forall z,
+  resolve (to_yaml (Num (int_or_big z))) = Num (if (0 <=? z)%Z then int_or_big z else Num.neg (int_or_big (- z))).
+Proof. exact YamlLaws.yaml_integer_roundtrip. Qed.
+Print Assumptions yaml_integer_roundtrip.
